@@ -256,82 +256,34 @@ func rulesTranslate(c *Ctx, r *Report, g *ssa.Global, codon map[[3]int64]int64) 
 		}
 	}
 	r.check(okLen, "VSA-TR", where, "length guard", c.pos(f.Pos()), "`len(src) % 3 != 0` panics before the first codon is read", "no dominating `len(src) % 3 != 0 => panic` guard")
-	// element fold: all stores into buf[j] are in the element loop; compute T over 256 bytes
+	// element fold: all stores into buf[j] are in the element loop (here or in a helper that receives &buf);
+	// compute T over 256 bytes
+	foldFn, foldBuf := f, ssa.Value(buf)
 	if len(storesToBuf) == 0 {
-		r.undecided("VSA-TR", where, "case fold", c.pos(buf.Pos()), "no per-element store into the codon buffer: case folding has a shape this rule does not cover")
-		return
-	}
-	var jIdx ssa.Value
-	for _, st := range storesToBuf {
-		ix := st.Addr.(*ssa.IndexAddr).Index
-		if jIdx == nil {
-			jIdx = ix
-		} else if jIdx != ix {
-			r.undecided("VSA-TR", where, "case fold", c.pos(st.Pos()), "stores into the codon buffer use different indices")
-			return
-		}
-	}
-	// element loop covers 0..2
-	jphi := loopPhiOf(jIdx)
-	okJ := false
-	if jphi != nil {
-		if l, why := findCountedLoopAny(jphi, jIdx); why == "" {
-			if k, ok := cInt(constVal(l.bound)); ok && k == 3 {
-				okJ = true
+		for _, ref := range *buf.Referrers() {
+			if cl, ok := ref.(*ssa.Call); ok {
+				if g := cl.Call.StaticCallee(); g != nil && g.Blocks != nil && c.inModule(g) {
+					for i, a := range cl.Call.Args {
+						if a == ssa.Value(buf) && i < len(g.Params) && instrDominates(cl, lk) && instrDominates(cp, cl) {
+							foldFn, foldBuf = g, g.Params[i]
+							r.analysed(fname(g))
+						}
+					}
+				}
 			}
 		}
 	}
-	if !r.check(okJ, "VSA-TR", where, "element loop", c.pos(buf.Pos()), "the case fold visits buf[0], buf[1], buf[2]", "the case-fold loop does not cover exactly the 3 bytes of the codon") {
+	T, foldPos, why, undec := codonFoldTable(c, foldFn, foldBuf)
+	if why != "" {
+		if undec {
+			r.undecided("VSA-TR", where, "case fold", foldPos, why)
+		} else {
+			r.violated("VSA-TR", where, "element loop", foldPos, why)
+		}
 		return
 	}
-	// the first load of buf[j] in the loop body is the input; region = body blocks until back to the header
-	var inputLd *ssa.UnOp
-	header := jphi.Block()
-	region := map[*ssa.BasicBlock]bool{}
-	var bodyEntry *ssa.BasicBlock
-	for b := range naturalLoop(header) {
-		if b != header {
-			region[b] = true
-		}
-	}
-	for _, sc := range header.Succs {
-		if region[sc] {
-			bodyEntry = sc
-		}
-	}
-	if bodyEntry == nil {
-		r.undecided("VSA-TR", where, "element loop", c.pos(header.Instrs[0].Pos()), "loop body not found")
-		return
-	}
-	isCell := func(addr ssa.Value) bool {
-		ia, ok := addr.(*ssa.IndexAddr)
-		return ok && ia.X == ssa.Value(buf) && ia.Index == jIdx
-	}
-	for _, in := range bodyEntry.Instrs {
-		if u, ok := in.(*ssa.UnOp); ok && u.Op == token.MUL && isCell(u.X) {
-			inputLd = u
-			break
-		}
-	}
-	if inputLd == nil {
-		r.undecided("VSA-TR", where, "element loop", c.pos(bodyEntry.Instrs[0].Pos()), "the loop body does not start by loading buf[j]")
-		return
-	}
-	a := &vsa{c: c, f: f, dom: byteDomain(), input: inputLd, entry: bodyEntry, region: region, isCell: isCell,
-		sliceTab: map[*ssa.Global][]int64{}, mapKeys: map[*ssa.Global]map[int64]bool{}, mapVals: map[*ssa.Global]map[int64]int64{}}
-	a.run()
-	if a.err != "" {
-		r.undecided("VSA-TR", where, "case fold", c.pos(inputLd.Pos()), a.err)
-		return
-	}
-	T := make([]int64, 256)
-	for k, e := range a.exits {
-		if e.kind != "edge" || e.to != header || !e.cell.ok {
-			r.undecided("VSA-TR", where, "case fold", c.pos(inputLd.Pos()), fmt.Sprintf("byte %s leaves the fold other than back to the loop header with a known value", byteStr(k)))
-			return
-		}
-		T[k] = e.cell.v
-	}
+	r.holds("VSA-TR", where, "element loop", foldPos, "the case fold visits buf[0], buf[1], buf[2]")
+	inputLdPos := foldPos
 	// accept set: preimages
 	pre := map[int64][]int{}
 	for x, y := range T {
@@ -351,7 +303,7 @@ func rulesTranslate(c *Ctx, r *Report, g *ssa.Global, codon map[[3]int64]int64) 
 		}
 	}
 	// keys of the table must be over ACGT only (checked in T-CODON); any key byte outside would add accepted bytes
-	r.check(len(bad) == 0, "VSA-TR", where, "accept set", c.pos(inputLd.Pos()),
+	r.check(len(bad) == 0, "VSA-TR", where, "accept set", inputLdPos,
 		"over all 256 bytes, exactly x and lower(x) fold onto each of A, C, G, T: a codon is accepted iff every byte is in aAcCgGtT, and it is looked up in upper case",
 		"the case fold maps other bytes onto a base (they are translated instead of panicking), or loses a case variant: "+strings.Join(bad, "; "))
 	// zero => panic, non-zero => append that value
@@ -578,4 +530,98 @@ func rulesReadingFrames(c *Ctx, r *Report) {
 	} else {
 		r.violated("RF-SUB", where, "frame slice", c.pos(call.Pos()), "frame i starts at "+lo+", want i (clamped to len(seq))")
 	}
+}
+
+// codonFoldTable computes the per-byte transfer function of the loop that rewrites bufVal[0..2] in fn.
+func codonFoldTable(c *Ctx, fn *ssa.Function, bufVal ssa.Value) (T []int64, pos string, why string, undecided bool) {
+	var stores []*ssa.Store
+	for _, ref := range *bufVal.Referrers() {
+		if x, ok := ref.(*ssa.IndexAddr); ok {
+			for _, r2 := range *x.Referrers() {
+				if st, ok := r2.(*ssa.Store); ok && st.Addr == ssa.Value(x) {
+					stores = append(stores, st)
+				}
+			}
+		}
+	}
+	pos = c.pos(fn.Pos())
+	if len(stores) == 0 {
+		return nil, pos, "no per-element store into the codon buffer: case folding has a shape this rule does not cover", true
+	}
+	var jIdx ssa.Value
+	for _, st := range stores {
+		ix := st.Addr.(*ssa.IndexAddr).Index
+		if jIdx == nil {
+			jIdx = ix
+		} else if jIdx != ix {
+			return nil, c.pos(st.Pos()), "stores into the codon buffer use different indices", true
+		}
+	}
+	jphi := loopPhiOf(jIdx)
+	okJ := false
+	if jphi != nil {
+		if l, w := findCountedLoopAny(jphi, jIdx); w == "" {
+			if k, ok := cInt(constVal(l.bound)); ok && k == 3 {
+				okJ = true
+			}
+			// `for j := range buf` over a *[3]byte: bound is len(*buf) == 3 by type
+			if cl, ok := l.bound.(*ssa.Call); ok {
+				if b, ok := cl.Call.Value.(*ssa.Builtin); ok && b.Name() == "len" {
+					if pt, ok := cl.Call.Args[0].Type().Underlying().(*types.Pointer); ok {
+						if arr, ok := pt.Elem().Underlying().(*types.Array); ok && arr.Len() == 3 {
+							okJ = true
+						}
+					}
+				}
+			}
+		}
+	}
+	if !okJ {
+		return nil, pos, "the case-fold loop does not cover exactly the 3 bytes of the codon", false
+	}
+	header := jphi.Block()
+	region := map[*ssa.BasicBlock]bool{}
+	var bodyEntry *ssa.BasicBlock
+	for b := range naturalLoop(header) {
+		if b != header {
+			region[b] = true
+		}
+	}
+	for _, sc := range header.Succs {
+		if region[sc] {
+			bodyEntry = sc
+		}
+	}
+	if bodyEntry == nil {
+		return nil, pos, "loop body not found", true
+	}
+	isCell := func(addr ssa.Value) bool {
+		ia, ok := addr.(*ssa.IndexAddr)
+		return ok && ia.X == bufVal && ia.Index == jIdx
+	}
+	var inputLd *ssa.UnOp
+	for _, in := range bodyEntry.Instrs {
+		if u, ok := in.(*ssa.UnOp); ok && u.Op == token.MUL && isCell(u.X) {
+			inputLd = u
+			break
+		}
+	}
+	if inputLd == nil {
+		return nil, pos, "the loop body does not start by loading buf[j]", true
+	}
+	pos = c.pos(inputLd.Pos())
+	a := &vsa{c: c, f: fn, dom: byteDomain(), input: inputLd, entry: bodyEntry, region: region, isCell: isCell,
+		sliceTab: map[*ssa.Global][]int64{}, mapKeys: map[*ssa.Global]map[int64]bool{}, mapVals: map[*ssa.Global]map[int64]int64{}}
+	a.run()
+	if a.err != "" {
+		return nil, pos, a.err, true
+	}
+	T = make([]int64, 256)
+	for k, e := range a.exits {
+		if e.kind != "edge" || e.to != header || !e.cell.ok {
+			return nil, pos, fmt.Sprintf("byte %s leaves the fold other than back to the loop header with a known value", byteStr(k)), true
+		}
+		T[k] = e.cell.v
+	}
+	return T, pos, "", false
 }
